@@ -267,6 +267,22 @@ def run(ctx, rep):
         rep.discharged("C19/Q4/result-gated", "the result is printed only when energy_performance succeeded")
     else:
         rep.violated("C19/Q4/result-gated", "no result is printed on an error path", construct=where)
+    # the library half of the RED1/RED2 precedence (main hands option-or-metadata to the pipelines, which are
+    # summarised above): set_user_wfactors overrides the file's value when a user value is given (C07/F3)
+    from . import c07
+    from .common import Report
+    sub7 = Report("C07")
+    c07.run(ctx, sub7)
+    f3 = [o for o in sub7.obligations if o.key.startswith("C07/F3/")]
+    if len(f3) < 3:
+        rep.violated("C19/Q1/RED/library/anchor", "the factor pipelines are analysable", why="%d C07/F3 obligations" % len(f3))
+    for o in f3:
+        k = "C19/Q1/RED/library/" + "/".join(o.key.split("/")[2:])
+        if o.status == "discharged":
+            rep.discharged(k, "user RED factor beats the factor source, which beats the built-in default: " + o.clause, nontrivial=False)
+        else:
+            rep.violated(k, "a RED1/RED2 factor given by option or metadata is the one used, whatever the factor source contains",
+                         construct=o.construct, why=o.why)
     rep.analysed = {"exit_sites": len(exits), "stdout_prints": len(prints)}
     rep.floor("exit-sites", len(exits), 14)
 
